@@ -3,6 +3,7 @@
 -/
 import TwModel
 import TwProofs.Lemmas.EvalStep
+import TwProofs.C04
 
 namespace Tw.C17
 open Tw
@@ -180,6 +181,320 @@ theorem quiet_page_is_oops :
     containsSub (quietText errorPageProg.stmts) (b "Oops!") = true ∧
     containsSub (quietText errorPageProg.stmts) (b "{{") = false := by
   decide +kernel
+
+/-! ### debug mode on: the page with its holes filled -/
+
+/-- text and plain variables only -/
+def simpleBlock : List Stmt → Bool
+  | [] => true
+  | .html _ :: r => simpleBlock r
+  | .expr _ (.ident _ _) :: r => simpleBlock r
+  | _ => false
+
+/-- a piece of fixed text, or the place where a variable is printed -/
+inductive Piece where
+  | text (t : Bytes)
+  | hole (name : Bytes)
+  deriving DecidableEq
+
+def piecesOf : List Stmt → List Piece
+  | [] => []
+  | .html t :: r => .text t.lit :: piecesOf r
+  | .expr _ (.ident _ n) :: r => .hole n :: piecesOf r
+  | _ :: r => piecesOf r
+
+/-- text, or `@if(debugMode)` with a branch of text and plain variables (and any `@else`) -/
+def debugSimple : List Stmt → Bool
+  | [] => true
+  | .html _ :: r => debugSimple r
+  | .ifS _ (.ident _ n) cons [] _ :: r => n == b "debugMode" && simpleBlock cons && debugSimple r
+  | _ => false
+
+/-- what such a program is when `debugMode` is true -/
+def debugPieces : List Stmt → List Piece
+  | [] => []
+  | .html t :: r => .text t.lit :: debugPieces r
+  | .ifS _ _ cons _ _ :: r => piecesOf cons ++ debugPieces r
+  | _ :: r => debugPieces r
+
+def holesBound (env : Env) : List Piece → Prop
+  | [] => True
+  | .text _ :: r => holesBound env r
+  | .hole n :: r => (env.get n).isSome = true ∧ holesBound env r
+
+/-- the text with every hole replaced by the printed value of its variable -/
+def fill (env : Env) : List Piece → Bytes
+  | [] => []
+  | .text t :: r => t ++ fill env r
+  | .hole n :: r => ((env.get n).map Val.toStr).getD [] ++ fill env r
+
+def maxCons : List Stmt → Nat
+  | [] => 0
+  | .ifS _ _ cons _ _ :: r => max cons.length (maxCons r)
+  | _ :: r => maxCons r
+
+theorem holesBound_append (env : Env) : ∀ (a c : List Piece), holesBound env (a ++ c) ↔ holesBound env a ∧ holesBound env c
+  | [], c => by simp [holesBound]
+  | .text _ :: r, c => by simp [holesBound, holesBound_append env r c]
+  | .hole _ :: r, c => by simp [holesBound, holesBound_append env r c, and_assoc]
+
+theorem fill_append (env : Env) : ∀ (a c : List Piece), fill env (a ++ c) = fill env a ++ fill env c
+  | [], c => by simp [fill]
+  | .text _ :: r, c => by simp [fill, fill_append env r c]
+  | .hole _ :: r, c => by simp [fill, fill_append env r c]
+
+theorem fill_push (env : Env) : ∀ ps : List Piece, fill env.push ps = fill env ps
+  | [] => rfl
+  | .text _ :: r => by simp [fill, fill_push env r]
+  | .hole n :: r => by simp [fill, fill_push env r, C04.nested_block_sees_outer]
+
+theorem holesBound_push (env : Env) : ∀ ps : List Piece, holesBound env ps → holesBound env.push ps
+  | [], _ => trivial
+  | .text _ :: r, h => holesBound_push env r h
+  | .hole n :: r, h => ⟨by rw [C04.nested_block_sees_outer]; exact h.1, holesBound_push env r h.2⟩
+
+theorem evalBlock_simple (c : Ctx) (env : Env) : ∀ (ss : List Stmt) (fuel : Nat), simpleBlock ss = true →
+    holesBound env (piecesOf ss) → ss.length + 2 ≤ fuel →
+    evalBlock (fuel + 1) c env ss = .ok ({ text := fill env (piecesOf ss) }, env) := by
+  intro ss
+  induction ss with
+  | nil => intro fuel _ _ _; rw [evalBlock_nil]; simp [piecesOf, fill]
+  | cons s r ih =>
+    intro fuel hs hb hf
+    obtain ⟨f, rfl⟩ : ∃ f, fuel = f + 2 := ⟨fuel - 2, by simp at hf; omega⟩
+    cases s with
+    | html t =>
+      have := ih (f + 1) (by simpa [simpleBlock] using hs) (by simpa [piecesOf, holesBound] using hb) (by simp at hf; omega)
+      rw [evalBlock_cons, show f + 2 = (f + 1) + 1 from rfl, evalStmt_html]
+      simp only [Res.bind_ok, Bool.false_eq_true, Bool.or_self, if_false, this, piecesOf, fill]
+    | expr t e =>
+      cases e with
+      | ident t2 n =>
+        have hb' : (env.get n).isSome = true ∧ holesBound env (piecesOf r) := by simpa [piecesOf, holesBound] using hb
+        obtain ⟨v, hv⟩ := Option.isSome_iff_exists.mp hb'.1
+        have := ih (f + 1) (by simpa [simpleBlock] using hs) hb'.2 (by simp at hf; omega)
+        rw [evalBlock_cons, show f + 2 = (f + 1) + 1 from rfl, evalStmt_succ]
+        simp only [stmtBody, calleesAt_expr, evalExpr, hv, Res.bind_ok, Bool.false_eq_true, Bool.or_self, if_false]
+        rw [show f + 1 + 1 = (f + 1) + 1 from rfl, this]
+        simp [piecesOf, fill, hv]
+      | _ => simp [simpleBlock] at hs
+    | _ => simp [simpleBlock] at hs
+
+/-- **debug mode on**: a program of the guarded shape renders to its text with the holes filled -/
+theorem evalProg_debug (c : Ctx) (env : Env) (hdbg : env.get (b "debugMode") = some (.bool true)) :
+    ∀ (ss : List Stmt) (fuel : Nat) (acc : Bytes), debugSimple ss = true → holesBound env (debugPieces ss) →
+    ss.length + maxCons ss + 6 ≤ fuel →
+    evalProg fuel c env ss acc = .ok (acc ++ fill env (debugPieces ss), env) := by
+  intro ss
+  induction ss with
+  | nil => intro fuel acc _ _ hf; obtain ⟨f, rfl⟩ : ∃ f, fuel = f + 1 := ⟨fuel - 1, by omega⟩; rw [evalProg_nil]; simp [debugPieces, fill]
+  | cons s r ih =>
+    intro fuel acc hs hb hf
+    obtain ⟨f, rfl⟩ : ∃ f, fuel = f + 3 := ⟨fuel - 3, by omega⟩
+    cases s with
+    | html t =>
+      have hr : debugSimple r = true := by simpa [debugSimple] using hs
+      have := ih (f + 2) (acc ++ t.lit) hr (by simpa [debugPieces, holesBound] using hb) (by simp [maxCons] at hf ⊢; omega)
+      rw [show f + 3 = (f + 2) + 1 from rfl, evalProg_cons, show f + 2 = (f + 1) + 1 from rfl, evalStmt_html, Res.bind_ok]
+      rw [show f + 1 + 1 = f + 2 from rfl, this]
+      simp [debugPieces, fill, List.append_assoc]
+    | ifS t cnd cons alts alt =>
+      cases cnd with
+      | ident t2 n =>
+        cases alts with
+        | cons a as => simp [debugSimple] at hs
+        | nil =>
+          have hs' : (n = b "debugMode" ∧ simpleBlock cons = true) ∧ debugSimple r = true := by simpa [debugSimple] using hs
+          obtain ⟨⟨hn, hsb⟩, hr⟩ := hs'
+          subst hn
+          have hb' : holesBound env (piecesOf cons) ∧ holesBound env (debugPieces r) := by
+            simpa [debugPieces, holesBound_append] using hb
+          have hrest := ih (f + 2) (acc ++ fill env (piecesOf cons)) hr hb'.2 (by simp [maxCons] at hf ⊢; omega)
+          obtain ⟨g, hg⟩ : ∃ g, f = g + 1 := ⟨f - 1, by simp [maxCons] at hf; omega⟩
+          subst hg
+          have hblk := evalBlock_simple c env.push cons (g + 1) hsb (holesBound_push env _ hb'.1) (by simp [maxCons] at hf; omega)
+          rw [show g + 1 + 3 = (g + 1 + 2) + 1 from rfl, evalProg_cons, show g + 1 + 2 = (g + 1 + 1) + 1 from rfl, evalStmt_ifS]
+          simp only [evalExpr, hdbg, Res.bind_ok, isTruthy, if_true]
+          rw [hblk]
+          simp only [Res.bind_ok, fill_push]
+          rw [show g + 1 + 1 + 1 = g + 1 + 2 from rfl, hrest]
+          simp [debugPieces, fill_append, List.append_assoc]
+      | _ => simp [debugSimple] at hs
+    | _ => simp [debugSimple] at hs
+
+/-- the holes of the error page -/
+def okHole : Piece → Bool
+  | .text _ => true
+  | .hole n => n == b "path" || n == b "line" || n == b "message"
+
+/-- where the first occurrence of three consecutive pieces starts: the pieces before and after -/
+def splitAt3 (x y z : Piece) : List Piece → Option (List Piece × List Piece)
+  | a :: c :: d :: r =>
+    if a = x ∧ c = y ∧ d = z then some ([], r)
+    else (splitAt3 x y z (c :: d :: r)).map fun p => (a :: p.1, p.2)
+  | _ => none
+
+theorem splitAt3_sound (x y z : Piece) : ∀ (l pre post : List Piece), splitAt3 x y z l = some (pre, post) →
+    l = pre ++ x :: y :: z :: post
+  | [], _, _, h => by simp [splitAt3] at h
+  | [_], _, _, h => by simp [splitAt3] at h
+  | [_, _], _, _, h => by simp [splitAt3] at h
+  | a :: c :: d :: r, pre, post, h => by
+    simp only [splitAt3] at h
+    split at h
+    · rename_i he
+      obtain ⟨h1, h2, h3⟩ := he
+      cases h; subst h1 h2 h3; rfl
+    · cases hs : splitAt3 x y z (c :: d :: r) with
+      | none => simp [hs] at h
+      | some p =>
+        simp [hs] at h
+        obtain ⟨h1, h2⟩ := h
+        have := splitAt3_sound x y z (c :: d :: r) p.1 p.2 (by rw [hs])
+        rw [this, ← h1, ← h2]; rfl
+
+set_option maxRecDepth 100000 in
+/-- F8 obligation for debug mode: the embedded page has the shape, its holes are `path`, `line`
+    and `message` only, "path:line" and the message occur in it, and the fuel suffices -/
+theorem errorPage_debug_shape :
+    debugSimple errorPageProg.stmts = true ∧
+    (debugPieces errorPageProg.stmts).all okHole = true ∧
+    (splitAt3 (.hole (b "path")) (.text (b ":")) (.hole (b "line")) (debugPieces errorPageProg.stmts)).isSome = true ∧
+    (debugPieces errorPageProg.stmts).contains (.hole (b "message")) = true ∧
+    errorPageProg.stmts.length + maxCons errorPageProg.stmts + 6 ≤ evalFuel := by
+  decide +kernel
+
+/-- the environment `Response` renders the error page in -/
+def errEnv (dbg : Bool) (path msg : Bytes) (line : Int) : Env :=
+  [[(b "debugMode", .bool dbg), (b "line", .int (Int64.ofInt line)), (b "message", .str msg), (b "path", .str path)]]
+
+theorem holesBound_of_names (env : Env) : ∀ ps : List Piece,
+    ps.all okHole = true →
+    (env.get (b "path")).isSome = true → (env.get (b "line")).isSome = true → (env.get (b "message")).isSome = true →
+    holesBound env ps
+  | [], _, _, _, _ => trivial
+  | .text _ :: r, h, h1, h2, h3 => holesBound_of_names env r (by simpa [okHole] using h) h1 h2 h3
+  | .hole n :: r, h, h1, h2, h3 => by
+    simp only [List.all_cons, okHole, Bool.and_eq_true, Bool.or_eq_true, beq_iff_eq] at h
+    refine ⟨?_, holesBound_of_names env r h.2 h1 h2 h3⟩
+    rcases h.1 with (e | e) | e <;> subst e <;> assumption
+
+attribute [local irreducible] errorPageProg debugPieces in
+/-- **debug mode on, in general**: for every path, message and line the built-in error page is its
+    fixed text with the holes filled — and "path:line" and the message are among the holes, so
+    the body contains them -/
+theorem builtin_page_debug (c : Ctx) (path msg : Bytes) (line : Int) :
+    evalProg evalFuel c (errEnv true path msg line) errorPageProg.stmts [] =
+      .ok (fill (errEnv true path msg line) (debugPieces errorPageProg.stmts), errEnv true path msg line) ∧
+    (∃ pre post : Bytes, fill (errEnv true path msg line) (debugPieces errorPageProg.stmts) =
+      pre ++ (path ++ b ":" ++ int64ToBytes (Int64.ofInt line)) ++ post) ∧
+    (∃ pre post : Bytes, fill (errEnv true path msg line) (debugPieces errorPageProg.stmts) = pre ++ msg ++ post) := by
+  obtain ⟨h1, h2, h3, h4, h5⟩ := errorPage_debug_shape
+  have g1 : (errEnv true path msg line).get (b "debugMode") = some (.bool true) := by simp [errEnv, Env.get, mapGet]
+  have g2 : (errEnv true path msg line).get (b "path") = some (.str path) := by
+    simp only [errEnv, Env.get, mapGet]
+    rw [if_neg (by decide), if_neg (by decide), if_neg (by decide), if_pos (by decide)]
+  have g3 : (errEnv true path msg line).get (b "line") = some (.int (Int64.ofInt line)) := by
+    simp only [errEnv, Env.get, mapGet]
+    rw [if_neg (by decide), if_pos (by decide)]
+  have g4 : (errEnv true path msg line).get (b "message") = some (.str msg) := by
+    simp only [errEnv, Env.get, mapGet]
+    rw [if_neg (by decide), if_neg (by decide), if_pos (by decide)]
+  have hb := holesBound_of_names (errEnv true path msg line) (debugPieces errorPageProg.stmts) h2 (by rw [g2]; rfl) (by rw [g3]; rfl) (by rw [g4]; rfl)
+  refine ⟨?_, ?_, ?_⟩
+  · have := evalProg_debug c _ g1 errorPageProg.stmts evalFuel [] h1 hb h5
+    simpa using this
+  · obtain ⟨p, hp⟩ := Option.isSome_iff_exists.mp h3
+    have := splitAt3_sound _ _ _ _ p.1 p.2 (by rw [hp])
+    rw [this, fill_append]
+    refine ⟨fill (errEnv true path msg line) p.1, fill (errEnv true path msg line) p.2, ?_⟩
+    simp [fill, g2, g3, Val.toStr, List.append_assoc]
+  · have hm : Piece.hole (b "message") ∈ debugPieces errorPageProg.stmts := by simpa using h4
+    obtain ⟨l1, l2, hl⟩ := List.append_of_mem hm
+    rw [hl, fill_append]
+    refine ⟨fill (errEnv true path msg line) l1, fill (errEnv true path msg line) l2, ?_⟩
+    simp [fill, g4, Val.toStr, List.append_assoc]
+
+/-! ### from `Response` to the page -/
+
+theorem sorted_error_data {α} (v1 v2 v3 v4 : α) :
+    sortByKey [(b "path", v1), (b "line", v2), (b "message", v3), (b "debugMode", v4)] =
+      [(b "debugMode", v4), (b "line", v2), (b "message", v3), (b "path", v1)] := by
+  have c1 : bytesLt (b "message") (b "debugMode") = false := by decide
+  have c2 : bytesLt (b "line") (b "debugMode") = false := by decide
+  have c3 : bytesLt (b "line") (b "message") = true := by decide
+  have c4 : bytesLt (b "path") (b "debugMode") = false := by decide
+  have c5 : bytesLt (b "path") (b "line") = false := by decide
+  have c6 : bytesLt (b "path") (b "message") = false := by decide
+  simp only [sortByKey, List.foldr, insertByKey, c1, c2, c3, c4, c5, c6, Bool.false_eq_true, if_false, if_true]
+
+theorem errorPage_env (w : World) (f : Fail) (cwd : Bytes) :
+    envFromMap (errorPageData w f cwd) =
+      .ok (errEnv w.cfg.debug (if f.path.isEmpty then [] else cleanPath (cwd ++ [47] ++ f.path)) f.msg f.line) := by
+  unfold errorPageData envFromMap
+  simp only [sorted_error_data]
+  have n1 : (b "debugMode" == b "loop") = false := by decide
+  have n2 : (b "line" == b "loop") = false := by decide
+  have n3 : (b "message" == b "loop") = false := by decide
+  have n4 : (b "path" == b "loop") = false := by decide
+  have k1 : (b "debugMode" == b "line") = false := by decide
+  have k2 : (b "debugMode" == b "message") = false := by decide
+  have k3 : (b "line" == b "message") = false := by decide
+  have k4 : (b "debugMode" == b "path") = false := by decide
+  have k5 : (b "line" == b "path") = false := by decide
+  have k6 : (b "message" == b "path") = false := by decide
+  simp only [envFromMap.go, nativeToObject, Env.set, Env.get, mapGet, mapSet, n1, n2, n3, n4, k1, k2, k3, k4, k5, k6,
+    Bool.false_eq_true, if_false]
+  rfl
+
+theorem errorPageProg_parses : parseSource Gen.defaultErrorPage = .ok errorPageProg := by
+  have h := errorPage_shape.1
+  unfold errorPageProg
+  split
+  · rename_i p hp; rw [hp]
+  · rename_i hne
+    split at h
+    · rename_i p hp; exact absurd hp (hne p)
+    · cases h
+
+/-- what `errorPage` returns, debug mode off: the fixed text -/
+theorem errorPage_quiet (w : World) (f : Fail) (cwd : Bytes) (hd : w.cfg.debug = false) :
+    (errorPage w f cwd).2 = .ok (quietText errorPageProg.stmts) := by
+  unfold errorPage evaluateString evaluateStringPure envOrFail
+  simp only [errorPageProg_parses, errorPage_env, hd]
+  have := builtin_page_no_leak { custom := w.custom } (if f.path.isEmpty then [] else cleanPath (cwd ++ [47] ++ f.path)) f.msg f.line
+  unfold errEnv
+  rw [this]
+  rfl
+
+/-- what `errorPage` returns, debug mode on: the text with path, line and message filled in -/
+theorem errorPage_debug (w : World) (f : Fail) (cwd : Bytes) (hd : w.cfg.debug = true) :
+    (errorPage w f cwd).2 = .ok (fill (errEnv true (if f.path.isEmpty then [] else cleanPath (cwd ++ [47] ++ f.path)) f.msg f.line)
+      (debugPieces errorPageProg.stmts)) := by
+  unfold errorPage evaluateString evaluateStringPure envOrFail
+  simp only [errorPageProg_parses, errorPage_env, hd]
+  rw [(builtin_page_debug { custom := w.custom } _ f.msg f.line).1]
+  rfl
+
+/-- **`Response`, rendering failed, no custom page or debug mode on, debug mode off**: the body is
+    the fixed "Oops" text — the same for every error -/
+theorem response_quiet_body (w : World) (t : Template) (name : Bytes) (data : List (Bytes × GoVal)) (cwd : Bytes) (f : Fail)
+    (h : tplString w t name data = .fail f) (hpage : w.cfg.errPage.isEmpty = true) (hd : w.cfg.debug = false) :
+    (tplResponse w t name data cwd).2.body = quietText errorPageProg.stmts ∧ (tplResponse w t name data cwd).2.err = some f :=
+  response_builtin_page w t name data cwd f h (by simp [hpage]) _ (errorPage_quiet w f cwd hd)
+
+/-- **`Response`, rendering failed, debug mode on**: whatever page is configured, the body is the
+    built-in page and contains "path:line" (the absolute path of the failing file) and the message -/
+theorem response_debug_body (w : World) (t : Template) (name : Bytes) (data : List (Bytes × GoVal)) (cwd : Bytes) (f : Fail)
+    (h : tplString w t name data = .fail f) (hd : w.cfg.debug = true) :
+    (tplResponse w t name data cwd).2.err = some f ∧
+    (∃ pre post : Bytes, (tplResponse w t name data cwd).2.body =
+      pre ++ ((if f.path.isEmpty then [] else cleanPath (cwd ++ [47] ++ f.path)) ++ b ":" ++ int64ToBytes (Int64.ofInt f.line)) ++ post) ∧
+    (∃ pre post : Bytes, (tplResponse w t name data cwd).2.body = pre ++ f.msg ++ post) := by
+  obtain ⟨hb, he⟩ := response_builtin_page w t name data cwd f h (by simp [hd]) _ (errorPage_debug w f cwd hd)
+  obtain ⟨_, h2, h3⟩ := builtin_page_debug { custom := w.custom } (if f.path.isEmpty then [] else cleanPath (cwd ++ [47] ++ f.path)) f.msg f.line
+  rw [hb]
+  exact ⟨he, h2, h3⟩
 
 set_option maxRecDepth 100000 in
 /-- with debug mode on the page shows message, path and line (`…_partial`: for one concrete
